@@ -100,6 +100,10 @@ def cases(tier):
             for n in (2, 3):
                 out.append({'name': 'multi', 'form': form, 'dirs': [], 'date': '2024-05-06T07:08:09', 'us': 0, 'multi': n, 'opt': opt})
                 out.append({'name': 'multi', 'form': form, 'dirs': [], 'date': '2024-05-06T07:08:09', 'us': 0, 'multi': n, 'opt': opt, 'spelled': 1})
+    # a trash directory named RELATIVE to the working directory by the writer and by the readers
+    for dirs in ([], ['d 1'], ['a', 'b', 'c']):
+        for n in ('f', '%41', 'a b'):
+            out.append({'name': n, 'form': 'tdrel', 'dirs': dirs, 'date': '2024-05-06T07:08:09', 'us': 0})
     # a home trash that lives on its own volume (/home is a mount point): absolute Paths, read back unchanged by every reader
     for dirs in ([], ['d 1'], ['home', 'u']):
         for n in ('f', '%41', 'a b', 'é'):
@@ -196,10 +200,15 @@ def run_case(c):
         W.link(E, {'link-file-elsewhere': up + 'elsewhere/target', 'link-dir-elsewhere': top + '/elsewhere/tdir', 'link-dangling': up + 'elsewhere/none', 'link-up': '..'}[kind])
     now = c['date'] + ('.%06d' % c['us'] if c['us'] else '')
     td = scen.HOME_TRASH if c['form'].startswith('home') else '/mnt/v1/.Trash-0'
+    tdopt = []
+    if c['form'] == 'tdrel':
+        import os
+        td = '/home/u/T'
+        tdopt = ['--trash-dir', os.path.relpath(td, B)]
     Eb = E.encode('utf-8', 'surrogateescape')
     with cell.Sandbox(W.spec()) as sb:
         before = sb.snapshot()
-        r = sb.run(['trash-put', '--', c['name']], cwd=B, now=now)
+        r = sb.run(['trash-put'] + tdopt + ['--', c['name']], cwd=B, now=now)
         after = sb.snapshot()
         ni = scen.new_infos(before, after)
         detail = {'name': c['name'], 'exit': r.exit, 'err': r.err[-300:]}
@@ -224,7 +233,10 @@ def run_case(c):
                     'nontrivial': 'bad|' + dims, 'detail': dict(detail, bad=bad)}
         if tdir != td:
             return {'verdict': 'dontcare', 'klass': 'other-trash-dir(C07)', 'detail': detail}
-        if c['form'].startswith('home'):
+        if c['form'] == 'tdrel':
+            loc = p['path'] if p['path'].startswith(b'/') else b'/' + p['path']          # (either form is fine for --trash-dir on the root volume)
+            okform = True
+        elif c['form'].startswith('home'):
             loc = p['path']
             okform = p['path_raw'].startswith(b'/')
         else:
@@ -243,19 +255,23 @@ def run_case(c):
                     'detail': dict(detail, want=c['date'])}
         # the three readers
         date_s = c['date'].replace('T', ' ')
-        rl = sb.run(['trash-list'], cwd='/')
+        rcwd = B if tdopt else '/'
+        rl = sb.run(['trash-list'] + tdopt, cwd=rcwd)
         if rl.out != '%s %s\n' % (date_s, E) or rl.exit != 0:
             return {'verdict': 'viol', 'sig': 'C03|trash-list-reads-differently|name=%s|form=%s' % (cls, c['form']), 'klass': 'list-mismatch',
                     'nontrivial': 'list|' + dims, 'detail': dict(detail, list_out=rl.out, list_err=rl.err[-300:])}
-        rf = sb.run(['trash-list', '--files'], cwd='/')
-        if rf.out != '%s %s -> %s/files/%s\n' % (date_s, E, tdir, nm) or rf.exit != 0:
+        rf = sb.run(['trash-list', '--files'] + tdopt, cwd=rcwd)
+        want_f = '%s %s -> %s/files/%s\n' % (date_s, E, tdopt[1] if tdopt else tdir, nm)          # (the payload is printed under the trash directory as it was named)
+        if rf.out != want_f or rf.exit != 0:
             return {'verdict': 'viol', 'sig': 'C03|trash-list--files-reads-differently|name=%s|form=%s' % (cls, c['form']), 'klass': 'list-mismatch',
                     'nontrivial': 'listfiles|' + dims, 'detail': dict(detail, list_out=rf.out, list_err=rf.err[-300:])}
-        rr = sb.run(['trash-restore', '/'], cwd='/', stdin='\n')
+        rr = sb.run(['trash-restore'] + tdopt + ['/'], cwd=rcwd, stdin='\n')
         exp = '%4d %s %s\n' % (0, date_s, E)
         if not rr.out.startswith(exp):
             return {'verdict': 'viol', 'sig': 'C03|trash-restore-reads-differently|name=%s|form=%s' % (cls, c['form']), 'klass': 'restore-mismatch',
                     'nontrivial': 'restore|' + dims, 'detail': dict(detail, restore_out=rr.out, restore_err=rr.err[-300:])}
+        if tdopt:
+            return {'verdict': 'ok', 'klass': 'conformant+3readers', 'nontrivial': 'ok|' + dims, 'execs': 4, 'detail': detail}          # (trash-rm has no --trash-dir)
         # trash-rm: a different full path must not match, the exact (escaped) one must
         rm0 = sb.run(['trash-rm', glob_escape(E) + 'Z'], cwd='/')
         mid = sb.snapshot()
